@@ -379,11 +379,11 @@ theorem lines_facts (m : Nat) (cols : List TCol) (lines : List Row) (h : All₂ 
     All₂ (ValsOf m) cols (lines.map (fun l => l.drop 2)) := by
   induction h with
   | nil => exact ⟨rfl, ⟨rfl, rfl, rfl⟩, ⟨rfl, rfl⟩, .nil⟩
-  | cons hab _ ih =>
+  | @cons c line cs ls hab _ ih =>
     obtain ⟨nc, uc, p, rfl, hl, n1, n2, n3, u1, u2, hp⟩ := hab
     obtain ⟨i1, ⟨i2, i3, i4⟩, ⟨i5, i6⟩, i7⟩ := ih
-    have g0 : getD0 (nc :: uc :: (_ ++ p)) 0 = nc := rfl
-    have g1 : getD0 (nc :: uc :: (_ ++ p)) 1 = uc := rfl
+    have g0 : getD0 (nc :: uc :: (c.cells ++ p)) 0 = nc := rfl
+    have g1 : getD0 (nc :: uc :: (c.cells ++ p)) 1 = uc := rfl
     refine ⟨?_, ⟨?_, ?_, ?_⟩, ⟨?_, ?_⟩, ?_⟩
     · simp [i1]
     · simp only [List.map_cons, List.all_cons, g0, n1, Bool.true_and]; exact i2
@@ -417,5 +417,494 @@ theorem tvariant_layout (t : TV) (hwf : t.wf = true) (hwfT : t.wfT = true) (g : 
     rw [transposedRows_variant t hwf hwfT _ f4]
     simp only [specLayout, f3.2, TV.names, TV.units]
     simp
+
+/-! ## 7. the plain layouts are variants; the rewrites map variants to variants -/
+
+theorem rvariant_plain (t : TV) (hwf : t.wf = true) : RVariant t (layoutR t) := by
+  refine ⟨[], [], t.names.map Cell.str, [], t.units.map Cell.str, [], t.dataRows, by simp [layoutR],
+    nameCells_plain t hwf, by intro c hc; simp at hc, unitCells_plain t hwf, ?_⟩
+  have := All₂.of_map (R := fun r r' : Row => ∃ p, r' = r ++ p) (fun r => r) t.dataRows
+    (fun r _ => ⟨[], by simp⟩)
+  simpa using this
+
+theorem tvariant_plain (t : TV) (hwf : t.wf = true) : TVariant t (layoutT t) := by
+  obtain ⟨_, _, hc⟩ := wf_unpack t hwf
+  refine ⟨[], [], t.cols.map lineT, rfl, ?_⟩
+  apply All₂.of_map
+  intro c hcm
+  have := hc c hcm
+  exact ⟨.str c.name, .str c.unit, [], by simp [lineT], this.2.2.2, rfl, this.2.1,
+    by simp [stripOfStr, ← this.1], rfl, by simp [stripOfStr, ← this.2.2.1], rfl⟩
+
+/-! ### padTrailing -/
+
+theorem padTrailing_nil (g : List Row) : padTrailing g [] = g := by
+  cases g <;> rfl
+
+theorem padTrailing_snoc_nil (g : List Row) (pads : List (List Cell)) :
+    padTrailing g (pads ++ [[]]) = padTrailing g pads := by
+  induction g generalizing pads with
+  | nil => cases pads <;> rfl
+  | cons r rs ih =>
+    cases pads with
+    | nil => simp [padTrailing, padTrailing_nil]
+    | cons p ps => simp [padTrailing, ih]
+
+theorem padTrailing_rows (rows drows : List Row) (ps : List (List Cell))
+    (h : All₂ (fun r r' : Row => ∃ p, r' = r ++ p) rows drows) :
+    All₂ (fun r r' : Row => ∃ p, r' = r ++ p) rows (padTrailing drows ps) := by
+  induction h generalizing ps with
+  | nil => cases ps <;> exact .nil
+  | cons hab hrest ih =>
+    cases ps with
+    | nil => exact .cons hab hrest
+    | cons q qs =>
+      obtain ⟨p, rfl⟩ := hab
+      exact .cons ⟨p ++ q, by simp⟩ (ih qs)
+
+theorem tailOK_append (tail p : List Cell) (ht : TailOK tail) (hp : allBlank p = true) : TailOK (tail ++ p) := by
+  intro c hc
+  cases tail with
+  | nil =>
+    cases p with
+    | nil => simp at hc
+    | cons x xs =>
+      simp only [allBlank, List.all_cons, Bool.and_eq_true] at hp
+      simp at hc; subst hc; exact hp.1
+  | cons x xs => exact ht c (by simpa using hc)
+
+theorem padTrailing_rvariant4 (t : TV) (g : List Row) (h : RVariant t g) (p0 p1 p2 p3 : List Cell)
+    (ps : List (List Cell)) (hp2 : allBlank p2 = true) :
+    RVariant t (padTrailing g (p0 :: p1 :: p2 :: p3 :: ps)) := by
+  obtain ⟨r0, r1, ncells, tail, ucells, utail, drows, rfl, hn, ht, hu, hd⟩ := h
+  exact ⟨r0 ++ p0, r1 ++ p1, ncells, tail ++ p2, ucells, utail ++ p3, padTrailing drows ps,
+    by simp [padTrailing], hn, tailOK_append tail p2 ht hp2, hu, padTrailing_rows _ _ ps hd⟩
+
+/-- **appending empty cells to any lines of a row-wise variant gives a row-wise variant** -/
+theorem padTrailing_rvariant (t : TV) (g : List Row) (h : RVariant t g) (pads : List (List Cell))
+    (hp : ∀ p ∈ pads, allBlank p = true) : RVariant t (padTrailing g pads) := by
+  have e : allBlank [] = true := rfl
+  match pads, hp with
+  | [], _ => rw [padTrailing_nil]; exact h
+  | [p0], _ =>
+    have := padTrailing_rvariant4 t g h p0 [] [] [] [] e
+    rwa [show [p0, [], [], []] = [p0] ++ [[]] ++ [[]] ++ [[]] from rfl, padTrailing_snoc_nil,
+      padTrailing_snoc_nil, padTrailing_snoc_nil] at this
+  | [p0, p1], _ =>
+    have := padTrailing_rvariant4 t g h p0 p1 [] [] [] e
+    rwa [show [p0, p1, [], []] = [p0, p1] ++ [[]] ++ [[]] from rfl, padTrailing_snoc_nil,
+      padTrailing_snoc_nil] at this
+  | [p0, p1, p2], hp =>
+    have := padTrailing_rvariant4 t g h p0 p1 p2 [] [] (hp p2 (by simp))
+    rwa [show [p0, p1, p2, []] = [p0, p1, p2] ++ [[]] from rfl, padTrailing_snoc_nil] at this
+  | p0 :: p1 :: p2 :: p3 :: ps, hp => exact padTrailing_rvariant4 t g h p0 p1 p2 p3 ps (hp p2 (by simp))
+
+theorem allBlank_append (p q : List Cell) (hp : allBlank p = true) (hq : allBlank q = true) :
+    allBlank (p ++ q) = true := by
+  simp [allBlank, List.all_append] at *
+  exact ⟨hp, hq⟩
+
+theorem padTrailing_lines (m : Nat) (cols : List TCol) (lines : List Row) (ps : List (List Cell))
+    (h : All₂ (LineOf m) cols lines) (hp : ∀ p ∈ ps, allBlank p = true) :
+    All₂ (LineOf m) cols (padTrailing lines ps) := by
+  induction h generalizing ps with
+  | nil => cases ps <;> exact .nil
+  | cons hab hrest ih =>
+    cases ps with
+    | nil => exact .cons hab hrest
+    | cons q qs =>
+      obtain ⟨nc, uc, p, rfl, hl, n1, n2, n3, u1, u2, hpb⟩ := hab
+      refine .cons ⟨nc, uc, p ++ q, by simp, hl, n1, n2, n3, u1, u2,
+        allBlank_append p q hpb (hp q (by simp))⟩ (ih qs (fun x hx => hp x (List.mem_cons_of_mem _ hx)))
+
+/-- **appending empty cells to any lines of a transposed variant gives a transposed variant** -/
+theorem padTrailing_tvariant (t : TV) (g : List Row) (h : TVariant t g) (pads : List (List Cell))
+    (hp : ∀ p ∈ pads, allBlank p = true) : TVariant t (padTrailing g pads) := by
+  obtain ⟨r0, r1, lines, rfl, hl⟩ := h
+  match pads, hp with
+  | [], _ => exact ⟨r0, r1, lines, by simp [padTrailing], hl⟩
+  | [p0], _ => exact ⟨r0 ++ p0, r1, lines, by simp [padTrailing], hl⟩
+  | p0 :: p1 :: ps, hp =>
+    exact ⟨r0 ++ p0, r1 ++ p1, padTrailing lines ps, by simp [padTrailing],
+      padTrailing_lines _ _ _ ps hl (fun x hx => hp x (by simp [hx]))⟩
+
+/-! ### padHeader -/
+
+/-- the padding really is blanks -/
+def Blanks (f : Nat → Str × Str) : Prop := ∀ k, allSpace (f k).1 = true ∧ allSpace (f k).2 = true
+
+theorem padCells_append (f : Nat → Str × Str) (k : Nat) (a b : List Cell) :
+    padCells f k (a ++ b) = padCells f k a ++ padCells f (k + a.length) b := by
+  induction a generalizing k with
+  | nil => simp [padCells]
+  | cons x xs ih => simp [padCells, ih, Nat.add_assoc, Nat.add_comm 1]
+
+theorem padCells_spec (f : Nat → Str × Str) (hf : Blanks f) (k : Nat) (cells : List Cell) :
+    (padCells f k cells).map stripOfStr = cells.map stripOfStr ∧
+    (padCells f k cells).all Cell.isStr = cells.all Cell.isStr ∧
+    (padCells f k cells).all (fun c => !c.isBlank) = cells.all (fun c => !c.isBlank) := by
+  induction cells generalizing k with
+  | nil => simp [padCells]
+  | cons c cs ih =>
+    have := padCell_spec (f k) c (hf k).1 (hf k).2
+    have ih' := ih (k + 1)
+    simp [padCells, this, ih'.1, ih'.2.1, ih'.2.2]
+
+theorem padCells_tailOK (f : Nat → Str × Str) (hf : Blanks f) (k : Nat) (tail : List Cell) (ht : TailOK tail) :
+    TailOK (padCells f k tail) := by
+  intro c hc
+  cases tail with
+  | nil => simp [padCells] at hc
+  | cons x xs =>
+    simp [padCells] at hc
+    subst hc
+    rw [(padCell_spec (f k) x (hf k).1 (hf k).2).2.2]
+    exact ht x rfl
+
+/-- **surrounding name / unit cells of a row-wise variant with blanks gives a row-wise variant** -/
+theorem padHeaderR_rvariant (t : TV) (g : List Row) (h : RVariant t g) (fn fu : Nat → Str × Str)
+    (hn : Blanks fn) (hu : Blanks fu) : RVariant t (padHeaderR fn fu g) := by
+  obtain ⟨r0, r1, ncells, tail, ucells, utail, drows, rfl, ⟨n1, n2, n3⟩, ht, ⟨u1, u2⟩, hd⟩ := h
+  have sn := padCells_spec fn hn 0 ncells
+  have su := padCells_spec fu hu 0 ucells
+  exact ⟨r0, r1, padCells fn 0 ncells, padCells fn (0 + ncells.length) tail, padCells fu 0 ucells,
+    padCells fu (0 + ucells.length) utail, drows, by simp [padHeaderR, padCells_append],
+    ⟨by rw [sn.2.1, n1], by rw [sn.2.2, n2], by rw [sn.1, n3]⟩, padCells_tailOK fn hn _ tail ht,
+    ⟨by rw [su.2.1, u1], by rw [su.1, u2]⟩, hd⟩
+
+theorem padLines_lines (m : Nat) (cols : List TCol) (lines : List Row) (fn fu : Nat → Str × Str)
+    (hn : Blanks fn) (hu : Blanks fu) (k : Nat) (h : All₂ (LineOf m) cols lines) :
+    All₂ (LineOf m) cols (padLines fn fu k lines) := by
+  induction h generalizing k with
+  | nil => exact .nil
+  | cons hab _ ih =>
+    obtain ⟨nc, uc, p, rfl, hl, n1, n2, n3, u1, u2, hpb⟩ := hab
+    have sn := padCell_spec (fn k) nc (hn k).1 (hn k).2
+    have su := padCell_spec (fu k) uc (hu k).1 (hu k).2
+    exact .cons ⟨padCell (fn k) nc, padCell (fu k) uc, p, rfl, hl, by rw [sn.2.1, n1], by rw [sn.2.2, n2],
+      by rw [sn.1, n3], by rw [su.2.1, u1], by rw [su.1, u2], hpb⟩ (ih (k + 1))
+
+/-- **surrounding name / unit cells of a transposed variant with blanks gives a transposed variant** -/
+theorem padHeaderT_tvariant (t : TV) (g : List Row) (h : TVariant t g) (fn fu : Nat → Str × Str)
+    (hn : Blanks fn) (hu : Blanks fu) : TVariant t (padHeaderT fn fu g) := by
+  obtain ⟨r0, r1, lines, rfl, hl⟩ := h
+  exact ⟨r0, r1, padLines fn fu 0 lines, rfl, padLines_lines _ _ _ fn fu hn hu 0 hl⟩
+
+/-! ### addComments -/
+
+/-- **a blank cell and free comment cells after the column-name row of a row-wise variant give a row-wise variant** -/
+theorem addComments_rvariant (t : TV) (g : List Row) (h : RVariant t g) (b : Cell) (cs : List Cell)
+    (hb : b.isBlank = true) : RVariant t (addComments b cs g) := by
+  obtain ⟨r0, r1, ncells, tail, ucells, utail, drows, rfl, hn, ht, hu, hd⟩ := h
+  refine ⟨r0, r1, ncells, tail ++ b :: cs, ucells, utail, drows, by simp [addComments], hn, ?_, hu, hd⟩
+  intro c hc
+  cases tail with
+  | nil => simp at hc; subst hc; exact hb
+  | cons x xs => exact ht c (by simpa using hc)
+
+/-! ### orientation -/
+
+theorem getD0_map_str (l : List Str) (j : Nat) (h : j < l.length) : getD0 (l.map Cell.str) j = .str l[j] := by
+  simp [getD0, List.getD_eq_getElem?_getD, h]
+
+/-- zipping the row-wise lines `names / units / rows` gives the transposed lines: **`zip`-transpose of the
+    value rows gives back the columns** -/
+theorem toTransposed_layoutR (t : TV) (hwf : t.wf = true) : toTransposed (layoutR t) = layoutT t := by
+  obtain ⟨_, _, hc⟩ := wf_unpack t hwf
+  simp only [layoutR, layoutT, toTransposed, headR, headT, List.cons_append, List.cons.injEq, true_and]
+  apply List.ext_getElem
+  · simp [transposeN, TV.names]
+  · intro j h1 h2
+    have hj : j < t.cols.length := by simpa using h2
+    have hcj := hc t.cols[j] (List.getElem_mem hj)
+    simp only [transposeN, List.getElem_map, List.getElem_range, List.map_cons, lineT, TV.dataRows]
+    rw [getD0_map_str _ _ (by simpa [TV.names] using hj), getD0_map_str _ _ (by simpa [TV.units] using hj)]
+    simp only [TV.names, TV.units, List.getElem_map, List.cons.injEq, true_and, List.map_map]
+    apply List.ext_getElem
+    · simp [hcj.2.2.2]
+    · intro i hi1 hi2
+      have hi : i < t.cols[j].cells.length := hi2
+      simp [getD0, List.getD_eq_getElem?_getD, hj, hi]
+
+/-! ## 8. from the layout to the table -/
+
+/-- the result with the transposed flag blanked out -/
+def eraseFlag (r : Except PyExc (Precursor × Fixer)) : Except PyExc (Precursor × Fixer) :=
+  r.map (fun pf => ({ pf.1 with transposed := false }, pf.2))
+
+theorem finish_flag (ext : Ext) (L : Layout) (b : Bool) (f : Fixer) :
+    eraseFlag (finish ext { L with transposed := b } f) = eraseFlag (finish ext L f) := by
+  unfold finish eraseFlag
+  simp only [bind, Except.bind]
+  cases parseColumns ext L.units
+      (if (fixShortRows L.rows0 (fixDuplicates L.names0 f).1.length (fixDuplicates L.names0 f).2).1.isEmpty = true
+        then []
+        else transposeN (fixShortRows L.rows0 (fixDuplicates L.names0 f).1.length (fixDuplicates L.names0 f).2).1
+          (fixDuplicates L.names0 f).1.length)
+      (fixShortRows L.rows0 (fixDuplicates L.names0 f).1.length (fixDuplicates L.names0 f).2).2 with
+  | error e => rfl
+  | ok r =>
+    simp only []
+    split <;> rfl
+
+theorem makePrecursor_flag (ext : Ext) (g g' : List Row) (L : Layout) (b : Bool) (f : Fixer)
+    (h : layout g = .ok { L with transposed := b }) (h' : layout g' = .ok L) :
+    eraseFlag (makePrecursor ext g f) = eraseFlag (makePrecursor ext g' f) := by
+  unfold makePrecursor
+  rw [h, h']
+  exact finish_flag ext L b f
+
+theorem makeTable_flag (ext : Ext) (g g' : List Row) (f : Fixer)
+    (h : eraseFlag (makePrecursor ext g f) = eraseFlag (makePrecursor ext g' f)) :
+    eraseFlag (makeTable ext g f) = eraseFlag (makeTable ext g' f) := by
+  unfold makeTable
+  cases h1 : makePrecursor ext g f with
+  | error e =>
+    cases h2 : makePrecursor ext g' f with
+    | error e' => rw [h1, h2] at h; simpa [eraseFlag, Except.map, bind, Except.bind] using h
+    | ok r => rw [h1, h2] at h; simp [eraseFlag, Except.map] at h
+  | ok r =>
+    obtain ⟨p, f1⟩ := r
+    cases h2 : makePrecursor ext g' f with
+    | error e' => rw [h1, h2] at h; simp [eraseFlag, Except.map] at h
+    | ok r' =>
+      obtain ⟨q, f2⟩ := r'
+      rw [h1, h2] at h
+      simp only [eraseFlag, Except.map, Except.ok.injEq, Prod.mk.injEq] at h
+      obtain ⟨hpq, rfl⟩ := h
+      have hcols : p.columns = q.columns := by
+        have := congrArg Precursor.columns hpq; simpa using this
+      simp only [bind, Except.bind, hcols]
+      cases q.columns with
+      | nil => simp [eraseFlag, Except.map, pure, Except.pure, hpq]
+      | cons c cs =>
+        simp only []
+        split
+        · rfl
+        · split
+          · rfl
+          · simp [eraseFlag, Except.map, pure, Except.pure, hpq]
+
+/-- **C10, row-wise text**: every row-wise variant of a well-formed table reads as the same table as the plain
+    row-wise text — same precursor (jsondata), same Table (pdtable), same fixer state — for every `ext`, every fixer -/
+theorem rowwise_variant_same_table (t : TV) (hwf : t.wf = true) (g : List Row) (h : RVariant t g)
+    (ext : Ext) (f : Fixer) :
+    makeTable ext g f = makeTable ext (layoutR t) f ∧
+    makePrecursor ext g f = makePrecursor ext (layoutR t) f := by
+  have h1 := rvariant_layout t hwf g h
+  have h2 := rvariant_layout t hwf _ (rvariant_plain t hwf)
+  simp [makeTable, makePrecursor, h1, h2]
+
+/-- **C10, transposed text**: every transposed variant of a table that is well formed in both layouts reads as
+    the same table as the plain row-wise text, apart from the transposed flag -/
+theorem transposed_variant_same_table (t : TV) (hwf : t.wf = true) (hwfT : t.wfT = true) (g : List Row)
+    (h : TVariant t g) (ext : Ext) (f : Fixer) :
+    eraseFlag (makeTable ext g f) = eraseFlag (makeTable ext (layoutR t) f) ∧
+    eraseFlag (makePrecursor ext g f) = eraseFlag (makePrecursor ext (layoutR t) f) := by
+  have h1 := tvariant_layout t hwf hwfT g h
+  have h2 := rvariant_layout t hwf _ (rvariant_plain t hwf)
+  have hp := makePrecursor_flag ext g (layoutR t) (specLayout t false) true f h1 h2
+  exact ⟨makeTable_flag ext g (layoutR t) f hp, hp⟩
+
+/-- the composite statement for the row-wise text: header blanks, then comments, then trailing cells (any other
+    order and any repetition follows in the same way from the `*_rvariant` lemmas) -/
+theorem rewrites_rowwise (t : TV) (hwf : t.wf = true) (fn fu : Nat → Str × Str) (hn : Blanks fn) (hu : Blanks fu)
+    (b : Cell) (cs : List Cell) (hb : b.isBlank = true) (pads : List (List Cell))
+    (hp : ∀ p ∈ pads, allBlank p = true) (ext : Ext) (f : Fixer) :
+    makeTable ext (padTrailing (addComments b cs (padHeaderR fn fu (layoutR t))) pads) f =
+      makeTable ext (layoutR t) f :=
+  (rowwise_variant_same_table t hwf _
+    (padTrailing_rvariant t _ (addComments_rvariant t _ (padHeaderR_rvariant t _ (rvariant_plain t hwf) fn fu hn hu)
+      b cs hb) pads hp) ext f).1
+
+/-- the composite statement for the orientation rewrite followed by header blanks and trailing cells -/
+theorem rewrites_transposed (t : TV) (hwf : t.wf = true) (hwfT : t.wfT = true) (fn fu : Nat → Str × Str)
+    (hn : Blanks fn) (hu : Blanks fu) (pads : List (List Cell)) (hp : ∀ p ∈ pads, allBlank p = true)
+    (ext : Ext) (f : Fixer) :
+    eraseFlag (makeTable ext (padTrailing (padHeaderT fn fu (toTransposed (layoutR t))) pads) f) =
+      eraseFlag (makeTable ext (layoutR t) f) := by
+  rw [toTransposed_layoutR t hwf]
+  exact (transposed_variant_same_table t hwf hwfT _
+    (padTrailing_tvariant t _ (padHeaderT_tvariant t _ (tvariant_plain t hwf) fn fu hn hu) pads hp) ext f).1
+
+/-! ## 9. how the block ends does not matter
+
+  Whatever follows the block in the row stream — nothing, a blank line, the start of another block — the splitter
+  delivers the same TABLE block (same cells, same origin row), hence the same table.  The grid must be one block
+  for the splitter (`blockShaped`: a `**` first cell, then only rows whose first cell is neither blank nor a
+  marker); DESIGN §3 clauses 1-5 make every variant of a well-formed table such a grid. -/
+
+section
+variable {R : Type} (kindOf : R → Kind)
+
+theorem go_append (i : Nat) (s : St R) (p q : List R) :
+    go kindOf i s (p ++ q) =
+      (emitted kindOf i s p).1 ++ go kindOf (i + p.length) (emitted kindOf i s p).2 q := by
+  induction p generalizing i s with
+  | nil => simp [emitted]
+  | cons r rs ih => simp [go, emitted, ih, Nat.add_assoc, Nat.add_comm 1]
+
+theorem go_plain (i : Nat) (s : St R) (body post : List R) (hb : ∀ r ∈ body, kindOf r = .plain) :
+    go kindOf i s (body ++ post) = go kindOf (i + body.length) { s with grid := s.grid ++ body } post := by
+  induction body generalizing i s with
+  | nil => simp
+  | cons r rs ih =>
+    have hr := hb r (by simp)
+    simp only [List.cons_append, go, step, hr, List.nil_append]
+    rw [ih _ _ (fun x hx => hb x (List.mem_cons_of_mem _ hx))]
+    simp [Nat.add_assoc, Nat.add_comm 1]
+
+theorem step_ends_table (grid : List R) (first i : Nat) (r : R) (hk : kindOf r ≠ .plain) :
+    (step kindOf ⟨grid, .table, first⟩ i r).2 = emit ⟨grid, .table, first⟩ := by
+  unfold step switch
+  cases h : kindOf r <;> simp_all
+
+/-- a TABLE block followed by nothing or by a row that is not a plain continuation row is delivered whole -/
+theorem table_block_delivered (pre : List R) (h : R) (body post : List R) (hh : kindOf h = .tbl)
+    (hb : ∀ r ∈ body, kindOf r = .plain)
+    (hpost : post = [] ∨ ∃ r rest, post = r :: rest ∧ kindOf r ≠ .plain) :
+    (⟨.table, h :: body, pre.length⟩ : Block R) ∈ run kindOf (pre ++ (h :: body) ++ post) := by
+  unfold run
+  rw [List.append_assoc, go_append]
+  apply List.mem_append_right
+  simp only [List.cons_append, go, Nat.zero_add]
+  apply List.mem_append_right
+  have hs : (step kindOf (emitted kindOf 0 initSt pre).2 pre.length h).1 = ⟨[h], .table, pre.length⟩ := by
+    simp [step, switch, hh]
+  rw [hs, go_plain kindOf _ _ body post hb]
+  rcases hpost with rfl | ⟨r, rest, rfl, hr⟩
+  · simp [go, emit]
+  · simp only [go, List.singleton_append]
+    apply List.mem_append_left
+    rw [step_ends_table kindOf _ _ _ r hr]
+    simp [emit]
+
+end
+
+theorem blockShaped_unpack (g : List Row) (h : blockShaped g = true) :
+    ∃ hd body, g = hd :: body ∧ rowKind hd = .tbl ∧ ∀ r ∈ body, rowKind r = .plain := by
+  cases g with
+  | nil => simp [blockShaped] at h
+  | cons hd body =>
+    simp only [blockShaped, Bool.and_eq_true, beq_iff_eq, List.all_eq_true] at h
+    exact ⟨hd, body, rfl, h.1, h.2⟩
+
+/-- **termination independence**: ended by end of input, by a blank line, or directly by the start of another
+    block, the splitter delivers the very same TABLE block — the grid `g` at origin row `pre.length` — so the table
+    parsed from it is the same -/
+theorem termination_independent (pre g : List Row) (hg : blockShaped g = true) (e : EndBy) (he : e.ok = true) :
+    (⟨.table, g, pre.length⟩ : Block Row) ∈ segment (pre ++ endBy g e) := by
+  obtain ⟨hd, body, rfl, hh, hb⟩ := blockShaped_unpack g hg
+  unfold segment
+  cases e with
+  | eof =>
+    have := table_block_delivered rowKind pre hd body [] hh hb (Or.inl rfl)
+    simpa [endBy] using this
+  | blankLine b rest =>
+    have hk : rowKind b ≠ .plain := by
+      intro hk; simp [EndBy.ok, hk, Kind.isBlank] at he
+    have := table_block_delivered rowKind pre hd body (b :: rest) hh hb (Or.inr ⟨b, rest, rfl, hk⟩)
+    simpa [endBy] using this
+  | nextBlock m rest =>
+    have hk : rowKind m ≠ .plain := by
+      intro hk; simp [EndBy.ok, hk] at he
+    have := table_block_delivered rowKind pre hd body (m :: rest) hh hb (Or.inr ⟨m, rest, rfl, hk⟩)
+    simpa [endBy] using this
+
+/-- appending cells to lines and adding comments do not touch first cells: the grid stays one block -/
+theorem rowKind_append (r p : Row) (h : rowKind r = .tbl ∨ rowKind r = .plain) : rowKind (r ++ p) = rowKind r := by
+  cases r with
+  | nil => rcases h with h | h <;> simp [rowKind] at h
+  | cons c cs =>
+    simp only [List.cons_append, rowKind] at h ⊢
+    by_cases hc : c.isBlank = true
+    · simp [hc] at h
+    · simp [hc]
+
+theorem blockShaped_padTrailing (g : List Row) (pads : List (List Cell)) (h : blockShaped g = true) :
+    blockShaped (padTrailing g pads) = true := by
+  obtain ⟨hd, body, rfl, hh, hb⟩ := blockShaped_unpack g h
+  have key : ∀ (rows : List Row) (ps : List (List Cell)), (∀ r ∈ rows, rowKind r = .plain) →
+      ∀ r ∈ padTrailing rows ps, rowKind r = .plain := by
+    intro rows
+    induction rows with
+    | nil => intro ps _ r hr; cases ps <;> simp [padTrailing] at hr
+    | cons x xs ih =>
+      intro ps hx r hr
+      cases ps with
+      | nil => exact hx r (by simpa [padTrailing] using hr)
+      | cons q qs =>
+        simp only [padTrailing, List.mem_cons] at hr
+        rcases hr with rfl | hr
+        · rw [rowKind_append x q (Or.inr (hx x (by simp)))]; exact hx x (by simp)
+        · exact ih qs (fun y hy => hx y (List.mem_cons_of_mem _ hy)) r hr
+  cases pads with
+  | nil => simpa [padTrailing] using h
+  | cons p ps =>
+    simp only [padTrailing, blockShaped, Bool.and_eq_true, beq_iff_eq, List.all_eq_true]
+    exact ⟨by rw [rowKind_append hd p (Or.inl hh)]; exact hh, key body ps hb⟩
+
+theorem blockShaped_addComments (g : List Row) (b : Cell) (cs : List Cell) (h : blockShaped g = true) :
+    blockShaped (addComments b cs g) = true := by
+  match g, h with
+  | [], h => exact h
+  | [_], h => exact h
+  | [_, _], h => exact h
+  | hd :: d :: ns :: rest, h =>
+    simp only [addComments, blockShaped, Bool.and_eq_true, beq_iff_eq, List.all_cons, List.all_eq_true] at h ⊢
+    refine ⟨h.1, h.2.1, ?_, h.2.2.2⟩
+    rw [rowKind_append ns (b :: cs) (Or.inr h.2.2.1)]
+    exact h.2.2.1
+
+/-! ## 10. non-vacuity, and why the orientation rewrite needs well-formedness in both layouts -/
+
+def exT : TV := ⟨"t".toList, .str "all".toList,
+  [⟨"b".toList, "m".toList, [.str "1.5".toList, .str " NaN ".toList]⟩,
+   ⟨"a".toList, "text".toList, [.str "x".toList, .str "".toList]⟩,
+   ⟨"c".toList, "onoff".toList, [.str "TRUE".toList, .int 0 "0.0".toList]⟩], 2⟩
+
+def exPad : Nat → Str × Str := fun k => if k % 2 = 0 then (" ".toList, "\t ".toList) else ([], "  ".toList)
+
+theorem exPad_blanks : Blanks exPad := by
+  intro k
+  unfold exPad
+  split <;> exact ⟨by decide, by decide⟩
+
+def exFixer : Fixer := ⟨FixCfg.strict, 0, 0, []⟩
+
+/-- the hypotheses of the theorems hold for a three-column table (numeric with a marker, text with an empty cell,
+    onoff with a native cell) -/
+example : exT.wf = true ∧ exT.wfT = true := by decide
+example : blockShaped (layoutR exT) = true ∧ blockShaped (layoutT exT) = true := by decide
+example : allBlank [.str "".toList, .none, .str " ".toList] = true := by decide
+example : EndBy.ok (.blankLine [] []) = true ∧ EndBy.ok (.blankLine [.str "".toList, .str "x".toList] []) = true ∧
+    EndBy.ok (.nextBlock [.str "**next".toList] []) = true ∧ EndBy.ok .eof = true := by decide
+
+/-- … and the plain text parses (so the equalities are between successful reads) -/
+example : (makeTable C02.exampleExt (layoutR exT) exFixer).toOption.map (fun r => (r.1.names, r.1.columns)) =
+    some (["b".toList, "a".toList, "c".toList],
+          [.num ["1.5".toList, NaN], .text ["x".toList, []], .onoff [true, false]]) := by decide
+
+/-- a fully rewritten transposed text, evaluated: same names and columns -/
+example : (makeTable C02.exampleExt
+      (padTrailing (padHeaderT exPad exPad (toTransposed (layoutR exT)))
+        [[.str "".toList], [], [.str "".toList, .none], [], [.str " ".toList]]) exFixer).toOption.map
+      (fun r => (r.1.names, r.1.columns, r.1.transposed)) =
+    some (["b".toList, "a".toList, "c".toList],
+          [.num ["1.5".toList, NaN], .text ["x".toList, []], .onoff [true, false]], true) := by decide
+
+/-- a table that is well formed row-wise only: its second value row is entirely blank -/
+def exRowwiseOnly : TV := ⟨"t".toList, .str "all".toList,
+  [⟨"a".toList, "text".toList, [.str "x".toList, .str "".toList, .str "y".toList]⟩], 3⟩
+
+example : exRowwiseOnly.wf = true ∧ exRowwiseOnly.wfT = false := by decide
+
+/-- … and laid out transposed it reads as a different table (the reader stops at the blank row): the hypothesis
+    `wfT` of the orientation theorem cannot be dropped -/
+example :
+    (makeTable C02.exampleExt (layoutR exRowwiseOnly) exFixer).toOption.map (·.1.columns) =
+      some [.text ["x".toList, [], "y".toList]] ∧
+    (makeTable C02.exampleExt (layoutT exRowwiseOnly) exFixer).toOption.map (·.1.columns) =
+      some [.text ["x".toList]] := by decide
 
 end Pdt.C10
